@@ -58,7 +58,12 @@ SHAPES = {
         ("d", "default", dict()),
     ],
 }
-# S5 (inheritance / mix-in with an overridden state) is built specially in build_class.
+# S9 (a timed state redefined in a subclass with another duration) and
+# S5 (inheritance / mix-in with an overridden state) are built specially in build_class.
+S9_META = [
+    ("a", "timed", dict(first=True, duration=0.25, next_state="b")),
+    ("b", "timed", dict(duration=2.0, next_state="a")),  # redefinition of the base's b (duration 0.5)
+]
 S5_META = [
     ("a", "state", dict(first=True)),
     ("b", "state", dict(must_finish=True)),  # overrides the base's timed b
@@ -68,7 +73,7 @@ S5_META = [
 
 
 def shape_spec(shape):
-    return S5_META if shape == "S5" else SHAPES[shape]
+    return S5_META if shape == "S5" else S9_META if shape == "S9" else SHAPES[shape]
 
 
 class Call:
@@ -249,6 +254,14 @@ def build_class(shape, asm, variant, H):
         src += fsrc("b", "state", dict(must_finish=True), 4)
         src += common
         spec = S5_META
+    elif shape == "S9":
+        src = "class B0(Base):\n"
+        src += fsrc("a", "timed", dict(first=True, duration=0.25, next_state="b"), 0)
+        src += fsrc("b", "timed", dict(duration=0.5, next_state="a"), 1)
+        src += "class M(B0):\n"
+        src += fsrc("b", "timed", dict(duration=2.0, next_state="a"), 2)
+        src += common
+        spec = S9_META
     else:
         spec = SHAPES[shape]
         src = "class M(Base):\n"
